@@ -25,9 +25,10 @@ import (
 )
 
 type Script struct {
-	ID    int      `json:"id"`
-	Sshd  []string `json:"sshd"`
-	Audit []string `json:"audit"`
+	ID      int      `json:"id"`
+	Sshd    []string `json:"sshd"`
+	Audit   []string `json:"audit"`
+	NFailed int      `json:"nfailed"` // failed-login lines in the sshd script (each yields one failed UserLogin)
 }
 
 // render reproduces deterministically the concretisation of one history.
@@ -64,6 +65,19 @@ func render(id int, hist []l1.Call, seed int64) *rendered {
 			}
 			r.script.Sshd = append(r.script.Sshd, line)
 			r.calls = append(r.calls, c)
+			// bursts of failed attempts by other clients share the sshd pipe (they do not concern the correlator)
+			if rng.Intn(2) == 0 {
+				n := 12 + rng.Intn(25)
+				for k := 0; k < n; k++ {
+					fp := 50000 + rng.Intn(9000)
+					if k%2 == 0 {
+						r.script.Sshd = append(r.script.Sshd, fmt.Sprintf("%d Invalid user evil%dx%d from 10.9.%d.%d port %d", fp, k, c.ID, rng.Intn(250), rng.Intn(250), 1024+rng.Intn(60000)))
+					} else {
+						r.script.Sshd = append(r.script.Sshd, fmt.Sprintf("%d Failed password for invalid user evil%dx%d from 10.9.%d.%d port %d ssh2", fp, k, c.ID, rng.Intn(250), rng.Intn(250), 1024+rng.Intn(60000)))
+					}
+					r.script.NFailed++
+				}
+			}
 		case "audit":
 			pid := strconv.Itoa(r.w.RealPid(c.Pid))
 			g := r.gen.Lines(auditgen.Event{Tag: c.Tag, Sess: r.w.RealSess(c.Sess), Typ: c.Typ, Pid: pid, Res: c.Res, Args: c.Args})
@@ -144,12 +158,13 @@ func main() {
 		}
 		// the output file
 		type ev struct {
+			Outcome  string            `json:"outcome"`
 			Type     string            `json:"type"`
 			Subjects map[string]string `json:"subjects"`
 			Source   any               `json:"source"`
 			Target   any               `json:"target"`
 		}
-		torn := 0
+		torn, nfailed := 0, 0
 		stream := []map[string]any{}
 		outs := []l1.Out{}
 		logins := map[int]ev{}
@@ -165,6 +180,11 @@ func main() {
 			var e ev
 			if err := json.Unmarshal([]byte(line), &e); err != nil || e.Type == "" {
 				torn++
+				continue
+			}
+			if e.Type == "UserLogin" && e.Outcome == "failed" {
+				nfailed++
+				stream = append(stream, map[string]any{"kind": "failed", "id": 0})
 				continue
 			}
 			if e.Type == "UserLogin" {
@@ -201,7 +221,7 @@ func main() {
 			}
 		}
 		must(enc.Encode(map[string]any{"k": "outs", "outs": outs, "err": false, "mut": false, "stream": stream,
-			"torn": torn, "badwrites": badw, "writes": nw, "lines": len(stream)}))
+			"torn": torn, "badwrites": badw, "writes": nw, "lines": len(stream), "failed": nfailed, "failedwant": r.script.NFailed}))
 	}
 	bw.Flush()
 	fo.Close()
